@@ -24,27 +24,32 @@ Record sel := {
   height : N;                              (* last height stored by draw_item; 0 = never drawn *)
   reverse : bool;
   multi : bool;
-  run : N
+  run : N;
+  selmod : N;                              (* the configured selector: 0 = none; k > 0 = "item_idx is a multiple of k" *)
+  wm : N;                                  (* pre_selected_watermark *)
+  latest : N                               (* latest_select_run_num *)
 }.
 
-Definition init (rev mul : bool) : sel :=
-  {| items := []; selected := []; ic := 0; lc := 0; height := 0; reverse := rev; multi := mul; run := 0 |}.
+Definition init_sel (rev mul : bool) (k : N) : sel :=
+  {| items := []; selected := []; ic := 0; lc := 0; height := 0; reverse := rev; multi := mul; run := 0;
+     selmod := k; wm := 0; latest := 0 |}.
+Definition init (rev mul : bool) : sel := init_sel rev mul 0.
 
 Definition with_cursor (s : sel) (i l : N) : sel :=
   {| items := items s; selected := selected s; ic := i; lc := l; height := height s;
-     reverse := reverse s; multi := multi s; run := run s |}.
+     reverse := reverse s; multi := multi s; run := run s; selmod := selmod s; wm := wm s; latest := latest s |}.
 Definition with_items (s : sel) (it : list mitem) : sel :=
   {| items := it; selected := selected s; ic := ic s; lc := lc s; height := height s;
-     reverse := reverse s; multi := multi s; run := run s |}.
+     reverse := reverse s; multi := multi s; run := run s; selmod := selmod s; wm := wm s; latest := latest s |}.
 Definition with_selected (s : sel) (m : list (key * N)) : sel :=
   {| items := items s; selected := m; ic := ic s; lc := lc s; height := height s;
-     reverse := reverse s; multi := multi s; run := run s |}.
+     reverse := reverse s; multi := multi s; run := run s; selmod := selmod s; wm := wm s; latest := latest s |}.
 Definition with_height (s : sel) (h : N) : sel :=
   {| items := items s; selected := selected s; ic := ic s; lc := lc s; height := h;
-     reverse := reverse s; multi := multi s; run := run s |}.
+     reverse := reverse s; multi := multi s; run := run s; selmod := selmod s; wm := wm s; latest := latest s |}.
 Definition with_run (s : sel) (r : N) : sel :=
   {| items := items s; selected := selected s; ic := ic s; lc := lc s; height := height s;
-     reverse := reverse s; multi := multi s; run := r |}.
+     reverse := reverse s; multi := multi s; run := r; selmod := selmod s; wm := wm s; latest := latest s |}.
 
 Definition nitems (s : sel) : N := N.of_nat (length (items s)).
 
@@ -116,16 +121,6 @@ Fixpoint insert_rank (x : mitem) (l : list mitem) : list mitem :=
 Definition merge_batch (l batch : list mitem) : list mitem :=
   fold_left (fun acc x => insert_rank x acc) batch l.
 
-(** append_sorted_items (no selector configured) *)
-Definition append_sorted_items (s : sel) (batch : list mitem) : sel :=
-  let it := merge_batch (items s) batch in
-  let n := N.of_nat (length it) in
-  let h := N.max (height s) 1 in
-  let l1 := if (n <=? lc s)%N then (N.max (N.min n h) 1 - 1)%N else lc s in
-  if (n <=? l1 + ic s)%N
-  then with_cursor (with_items s it) (N.max n h - h)%N (N.min l1 (h - 1)%N)
-  else with_cursor (with_items s it) (ic s) l1.
-
 Definition clear (s : sel) : sel := with_items s [].
 
 (** Draw::draw: the height is stored by draw_item, i.e. only when at least one row is drawn *)
@@ -180,6 +175,34 @@ Definition act_deselect_all (s : sel) : sel := with_selected s [].
 (** act_select_raw_item(run_num, item_index, item) and act_select_matched (which delegates to it) *)
 Definition act_select_raw_item (s : sel) (r idx id : N) : sel :=
   if negb (multi s) then s else with_selected s (m_insert (selected s) (r, idx) id).
+
+
+(** * pre-selection (a Selector configured): Selection::pre_select, and the watermark bookkeeping of
+    append_sorted_items.  A batch is pre-selected only if the list is at least as long as the longest
+    list seen so far in this (highest) command run. *)
+Definition with_marks (s : sel) (w l : N) : sel :=
+  {| items := items s; selected := selected s; ic := ic s; lc := lc s; height := height s;
+     reverse := reverse s; multi := multi s; run := run s; selmod := selmod s; wm := w; latest := l |}.
+Definition should_select (k idx : N) : bool := negb (k =? 0)%N && (idx mod k =? 0)%N.
+Definition pre_select (s : sel) (batch : list mitem) : list (key * N) :=
+  if negb (selmod s =? 0)%N && multi s
+  then fold_left (fun m it => if should_select (selmod s) (mi_idx it) then m_insert m (run s, mi_idx it) (mi_id it) else m) batch (selected s)
+  else selected s.
+
+(** append_sorted_items *)
+Definition append_sorted_items (s : sel) (batch : list mitem) : sel :=
+  let fresh := negb (match batch with [] => true | _ => false end) && (latest s <? run s)%N in
+  let lt := if fresh then run s else latest s in
+  let w0 := if fresh then 0%N else wm s in
+  let sl := if (w0 <=? nitems s)%N then pre_select s batch else selected s in
+  let it := merge_batch (items s) batch in
+  let n := N.of_nat (length it) in
+  let s1 := with_marks (with_selected s sl) (N.max w0 n) lt in
+  let h := N.max (height s) 1 in
+  let l1 := if (n <=? lc s)%N then (N.max (N.min n h) 1 - 1)%N else lc s in
+  if (n <=? l1 + ic s)%N
+  then with_cursor (with_items s1 it) (N.max n h - h)%N (N.min l1 (h - 1)%N)
+  else with_cursor (with_items s1 it) (ic s) l1.
 
 (** get_selected_indices_and_items: (indices, object ids) *)
 Definition output (s : sel) : option (list N * list N) :=
